@@ -269,4 +269,6 @@ CONTRACTS = list(CONTRACTS) + [PolarsContainerValidate]
 # the Index component: its values are validated under positional labels and with the caller's head/tail/sample (IndexValidate, C04 file)
 from contracts.C04_field_validate import ArrayValidate, IndexValidate  # noqa: E402
 
-CONTRACTS = list(CONTRACTS) + [IndexValidate, ArrayValidate]
+from contracts.C02_polars_column_collect import PolarsColumnCollect  # noqa: E402  (every polars column core check sees the sub-sample)
+
+CONTRACTS = list(CONTRACTS) + [IndexValidate, ArrayValidate, PolarsColumnCollect]
